@@ -51,6 +51,13 @@ fn step(line: &str) -> String {
                 if a != b {
                     return format!("serde-mismatch {:?} {:?}", a, b);
                 }
+                // the same text handed over as an owned string (`from_value`) and as a transient one (`from_reader`):
+                // deserialisation must not depend on how the deserializer lends the string
+                let c = serde_json::from_value::<TraceId>(serde_json::Value::String(s.clone())).ok().map(|t| t.0);
+                let d = serde_json::from_reader::<_, TraceId>(serde_json::to_string(&s).unwrap().as_bytes()).ok().map(|t| t.0);
+                if a != c || a != d {
+                    return format!("serde-mismatch from_str={:?} from_value={:?} from_reader={:?}", a, c, d);
+                }
                 match a { Some(v) => format!("ok {:x}", v), None => "err".into() }
             }
             None => "bad-op".into(),
@@ -63,6 +70,13 @@ fn step(line: &str) -> String {
                     .map(|t| t.0);
                 if a != b {
                     return format!("serde-mismatch {:?} {:?}", a, b);
+                }
+                // the same text handed over as an owned string (`from_value`) and as a transient one (`from_reader`):
+                // deserialisation must not depend on how the deserializer lends the string
+                let c = serde_json::from_value::<SpanId>(serde_json::Value::String(s.clone())).ok().map(|t| t.0);
+                let d = serde_json::from_reader::<_, SpanId>(serde_json::to_string(&s).unwrap().as_bytes()).ok().map(|t| t.0);
+                if a != c || a != d {
+                    return format!("serde-mismatch from_str={:?} from_value={:?} from_reader={:?}", a, c, d);
                 }
                 match a { Some(v) => format!("ok {:x}", v), None => "err".into() }
             }
